@@ -152,6 +152,7 @@ ACTS = {
     'Opinion.affect': ['CCL SPREADER', 'OCC', 'HIT'], 'Opinion.stifle': ['CCL STIFLER'],
     'Monitor.observe': ['OBSERVE'],
     'AddDelete.add': ['ADADD'], 'AddDelete.delete': ['ADDEL'],
+    'SIvR.infect': ['SIVR'], 'SIvR.remove': ['CCL REMOVED', 'PLEAVE INFECTED_V', 'PLEAVE INFECTED_N'], 'Vaccinate.vaccinate': ['VACC'],
 }
 EDGE_HANDLERS = {'SIR.infect', 'SIS.infect', 'SEIR.infect', 'SEIR.infectAsymptomatic', 'SIR_FixedRecovery.infect',
                  'SIS_FixedRecovery.infect', 'Opinion.affect', 'Opinion.stifle', 'SIvR.infect'}
@@ -324,6 +325,11 @@ class Extract:
                 tq = w[2]; tcls = {'SIR.remove': 'remove', 'SIS.recover': 'recover'}[tq]
                 acts.append(f"POSTL {fb(p._tInfected)} {self.hid(getattr(p, tcls))}")
             elif w[0] == 'OBSERVE': acts.append("OBSERVE")
+            elif w[0] == 'VACC': acts.append("VACC")
+            elif w[0] == 'PLEAVE': acts.append(f"PLEAVE {self.lidx[id(p.locus(getattr(cls, w[1])))]}")
+            elif w[0] == 'SIVR':
+                eff = p._efficacy[0] if isinstance(p._efficacy, list) else p._efficacy
+                acts.append(f"SIVR {i} {ci[p.INFECTED]} {fb(p._offset)} {fb(eff)} {self.lidx[id(p.locus(p.INFECTED_N))]} {self.lidx[id(p.locus(p.INFECTED_V))]}")
             elif w[0] == 'ADADD': acts.append(f"ADADD {self.lidx[id(p.locus(AddDelete.NODES))]} {p._c} {self.ad_mode(p)}")
             elif w[0] == 'ADDEL': acts.append(f"ADDEL {self.lidx[id(p.locus(AddDelete.NODES))]} {self.ad_mode(p)}")
             else: raise ValueError(a)
@@ -393,8 +399,9 @@ def state_line(d, ex):
             hit.append(s)
     nodes = ' '.join(map(str, g.nodes()))
     adj = ' '.join(f"{n}:" + ','.join(map(str, g.adj[n])) for n in g.nodes())
+    vac = [f"{n}@{bits(g.nodes[n].get('vaccination_time', 0.0))}" for n in sorted(g.nodes()) if g.nodes[n].get('vaccincated')]
     return (f"nodes=[{nodes}] adj=[{adj}] comp=[{' | '.join(comps)}] loci=[{loci}] pend=[{pend}] occ=[{occs}] "
-            f"tocc=[{toccs}] hit=[{' '.join(hit)}]")
+            f"tocc=[{toccs}] hit=[{' '.join(hit)}]" + (f" vacc=[{' '.join(vac)}]" if vac else ""))
 
 
 def lkey(l):
